@@ -1,4 +1,5 @@
 """C09 — k-means: one arg-min routine; all reported quantities of a fit describe one and the same state."""
+import re
 from . import layout
 from . import c07
 from .core import RuleResult
@@ -210,7 +211,27 @@ def rule_argmin(ctx):
             it = loops[0][2]
             ik = k(it)
             res.instance("%s : scan iterator %s" % (skey, ik[:90]))
-            if "param:centroids" in ik and not any(x in ik for x in ("call:skip", "call:take", "call:step_by", "call:rev(", "call:filter")) and any(x in ik for x in ("call:rows", "call:outer_iter", "call:axis_iter", "call:genrows")):
+            # `rows().enumerate().skip(1)` (indices assigned before the skip) leaves out row 0 only: sound when the incumbent
+            # the scan starts from is (0, rdistance(row 0, x))
+            starts_from_row0 = False
+            while ik.startswith("call:into_iter(call:skip(") and ik.endswith(")"):
+                ik = ik[len("call:into_iter("):-1]      # the for loop's own IntoIterator::into_iter
+            if ik.startswith("call:skip(call:enumerate(") and re.search(r",\s*1$", ik.rstrip(")")):
+                row0 = set()
+                for y in walk(scan["body"]):
+                    if y.get("k") == "LetStmt" and y.get("init") is not None and y["pat"].get("k") == "Bind":
+                        i0 = peel_refs(y["init"])
+                        while i0.get("k") == "MethodCall" and i0["name"] in ("view", "to_owned", "clone"):
+                            i0 = peel_refs(i0["recv"])
+                        if i0.get("k") == "MethodCall" and i0["name"] == "row" and peel_refs(i0["recv"]).get("name") == "centroids" and str(peel_refs(i0["args"][0]).get("v")) == "0":
+                            row0.add(y["pat"]["local"])
+                for y in walk(scan["body"]):
+                    if y.get("k") == "LetStmt" and y.get("init") is not None and peel_refs(y["init"]).get("k") == "Tup" and len(peel_refs(y["init"])["es"]) == 2:
+                        a, b = peel_refs(y["init"])["es"]
+                        if str(peel_refs(a).get("v")) == "0" and any(z.get("k") == "MethodCall" and z["name"] == "rdistance" and any((w.get("k") == "Path" and w.get("local") in row0) or (w.get("k") == "MethodCall" and w["name"] == "row" and str(peel_refs(w["args"][0]).get("v")) == "0") for a_ in [z["recv"]] + z["args"] for w in walk(a_)) for z in walk(b)):
+                            starts_from_row0 = True
+            ik_rest = ik.replace("call:skip(call:enumerate(", "call:enumerate(", 1) if starts_from_row0 else ik
+            if "param:centroids" in ik and not any(x in ik_rest for x in ("call:skip", "call:take", "call:step_by", "call:rev(", "call:filter")) and any(x in ik for x in ("call:rows", "call:outer_iter", "call:axis_iter", "call:genrows")):
                 res.ok()
             else:
                 res.violate("%s : coverage" % skey, "the scan does not iterate over all rows of the centroid matrix: %s" % ik[:120], fn_loc(scan))
@@ -387,6 +408,9 @@ def rule_counts(ctx):
                                 if y.get("k") in ("AssignOp", "Assign") and any(z.get("k") == "Path" and z.get("local") == root["local"] for z in walk(y["l"])):
                                     const = False
                                 if y.get("k") == "Ref" and y.get("mut") and peel_refs(y["e"]).get("local") == root["local"]:
+                                    const = False
+                                # `counts.get_mut(c)`, `counts.iter_mut()`, `counts.mapv_inplace(..)`: a method taking the local by `&mut`
+                                if y.get("k") == "MethodCall" and peel_refs(y["recv"]).get("local") == root["local"] and ((c.ty(y["recv"].get("at")) or "").startswith("&mut") or y["name"].endswith("_mut") or y["name"].endswith("_inplace") or y["name"] in ("assign", "fill", "scaled_add", "zip_mut_with")):
                                     const = False
                 if const:
                     res.violate("%s : constant-cluster-count" % key, "a model is returned whose cluster_count is the constant array `%s`: it is not the number of observations the returned centroids attract (duplicated observations all go to the first of identical centroids)" % Render(c).e(v)[:40], fn_loc(fn, n["ln"]))
